@@ -351,6 +351,9 @@ func ruleD3(c *Ctx, id string) {
 			if _, isMk := stripConv(root).(*ssa.MakeSlice); isMk {
 				continue
 			}
+			if _, isMk := resultOf(root).(*ssa.MakeSlice); isMk {
+				continue // a snapshot slice built by a private helper
+			}
 			base := fmt.Sprintf("%s|whole Op value", FuncName(fn))
 			perKey[base]++
 			key := base
